@@ -22,6 +22,10 @@ use std::path::{Path, PathBuf};
 
 const MARKER: &[u8] = b"-//JACOCO//DTD";
 const F_GCNO_LAST: &str = "C17-gcno-same-stem-last-wins";
+/// two linked-files-map.json with different contents among the inputs: `get_mapping` returns the
+/// first entry of a hash map keyed by entry name (same name in two archives: the later archive
+/// replaces the earlier one), so the packaging / the argument order decides which mapping is used
+const F_TWO_MAPS: &str = "C17-two-path-mappings-first-wins";
 
 // ---------------------------------------------------------------------------------------------
 // artifacts
@@ -602,11 +606,22 @@ fn oracles(case: &Case, runs: &[LayoutRun]) -> Option<OracleFail> {
                     ),
                 });
             }
+            // the path mapping is part of the outcome: same artifacts, same mapping (OutcomeEquivM)
             let maps: BTreeSet<u64> = case.arts.iter().filter(|x| x.intent == Intent::Map).map(|x| x.cid()).collect();
-            if maps.len() <= 1 && runs[a].map != runs[b].map {
+            if runs[a].map != runs[b].map {
                 return Some(OracleFail {
-                    finding: None, class: "packaging-map",
-                    what: format!("packaging: path mapping differs between layouts {} and {}: {:?} vs {:?}", a, b, runs[a].map, runs[b].map),
+                    finding: if maps.len() >= 2 { Some(F_TWO_MAPS) } else { None },
+                    class: "packaging-map",
+                    what: if maps.len() >= 2 {
+                        format!(
+                            "packaging: layouts {} and {} of the same artifacts deliver the same items but different path mappings ({:?} vs {:?}): \
+                             {} different linked-files-map.json among the inputs, producer.rs get_mapping takes the first entry of a hash map \
+                             keyed by entry name (the same name in a later archive replaces the earlier one)",
+                            a, b, runs[a].map, runs[b].map, maps.len()
+                        )
+                    } else {
+                        format!("packaging: path mapping differs between layouts {} and {}: {:?} vs {:?}", a, b, runs[a].map, runs[b].map)
+                    },
                 });
             }
         }
@@ -1102,8 +1117,12 @@ fn gen_xml_badutf8(rng: &mut Rng) -> Vec<u8> {
     b
 }
 
-const STEMS: &[&str] = &["a", "b", "main", "sub/a", "sub/deep/c", "x.y", "d_1/e", "lib/foo-bar", "a_1", "sub/main"];
-const DIRS: &[&str] = &["", "", "sub/", "sub/deep/", "rep/", "lib/"];
+const STEMS: &[&str] = &[
+    "a", "b", "main", "sub/a", "sub/deep/c", "x.y", "d_1/e", "lib/foo-bar", "a_1", "sub/main", ".libs/a", "sub/.libs/hid", "lib/.h",
+];
+const DIRS: &[&str] = &["", "", "sub/", "sub/deep/", "rep/", "lib/", ".ci/", "sub/.hidden/"];
+/// contents of `.ignore` / `.gitignore` files that would hide artifacts from a walker that honours them
+const IGNORE_FILES: &[&str] = &["*.info\n*.xml\n", "*.gcno\n*.gcda\n", "sub/\nlib/\n", "*\n", "r0.info\njacoco*.xml\n/a.gcno\n", "rep/\n*.profraw\nlinked-files-map.json\n"];
 
 struct GenCfg {
     findings: bool, // allow the artifacts the named findings are about
@@ -1183,6 +1202,15 @@ fn gen_artifacts(rng: &mut Rng, pools: &Pools, llvm_opt: bool, rep: &mut Report)
         };
         add(rel, content, Intent::Decoy);
     }
+    // hidden files with coverage extensions, and ignore files (WalkDir knows neither notion: a directory
+    // input must deliver exactly what the same files deliver from a zip)
+    if rng.chance(1, 4) && !nothing_usable {
+        add(format!("{}.hidden{}.info", rng.pick(DIRS), rng.below(2)), gen_info(rng), Intent::Info);
+    }
+    if rng.chance(1, 3) {
+        let name = *rng.pick(&[".ignore", ".gitignore", ".ignore", ".grcovignore"]);
+        add(format!("{}{}", rng.pick(DIRS), name), rng.pick(IGNORE_FILES).as_bytes().to_vec(), Intent::Decoy);
+    }
     // linked-files-map.json
     match rng.below(20) {
         0..=5 => add("linked-files-map.json".into(), format!("{{\"a\":\"b{}\"}}", rng.below(1000)).into_bytes(), Intent::Map),
@@ -1191,10 +1219,6 @@ fn gen_artifacts(rng: &mut Rng, pools: &Pools, llvm_opt: bool, rep: &mut Report)
             let c = format!("{{\"same\":{}}}", rng.below(1000)).into_bytes();
             add("linked-files-map.json".into(), c.clone(), Intent::Map);
             add(format!("{}linked-files-map.json", rng.pick(DIRS)), c, Intent::Map);
-        }
-        8 => {
-            add("linked-files-map.json".into(), format!("{{\"one\":{}}}", rng.below(1000)).into_bytes(), Intent::Map);
-            add(format!("{}linked-files-map.json", rng.pick(DIRS)), format!("{{\"two\":{}}}", rng.below(1000)).into_bytes(), Intent::Map);
         }
         _ => {}
     }
@@ -1267,7 +1291,20 @@ fn gen_case(rng: &mut Rng, pools: &Pools, cfg: &GenCfg, rep: &mut Report) -> Cas
     let ignore_orphan = rng.chance(1, 2);
     let llvm = rng.chance(1, 3);
     let mut arts = gen_artifacts(rng, pools, llvm, rep);
-    if cfg.findings {
+    if cfg.findings && rng.chance(1, 2) {
+        // two linked-files-map.json with different contents (finding C17-two-path-mappings-first-wins);
+        // the main stream never has two different ones
+        arts.retain(|a| a.intent != Intent::Map);
+        arts.push(Artifact { rel: "linked-files-map.json".into(), content: format!("{{\"one\":{}}}", rng.below(1000)).into_bytes(), intent: Intent::Map });
+        arts.push(Artifact {
+            rel: format!("{}linked-files-map.json", rng.pick(DIRS)),
+            content: format!("{{\"two\":{}}}", rng.below(1000)).into_bytes(),
+            intent: Intent::Map,
+        });
+        if !arts.iter().any(|a| matches!(a.intent, Intent::Info | Intent::Xml | Intent::Gcno | Intent::Profraw | Intent::Profdata)) {
+            arts.push(art("base.info", b"TN:b\nSF:src/a.c\nDA:1,1\nend_of_record\n", Intent::Info));
+        }
+    } else if cfg.findings {
         {
             {
                 // two different gcno files with the same relative name (+ a gcda so that the choice is visible
@@ -1369,6 +1406,48 @@ fn witnesses() -> Vec<(&'static str, Case)> {
             ],
         },
     ));
+    // two archives, each with its own linked-files-map.json (same entry name): the LAST argument's is used
+    // (= C17_packaging_invariant_mapping_false of Props/C17.lean)
+    v.push((
+        "two-path-mappings-two-archives",
+        Case {
+            ignore_orphan: false,
+            llvm: false,
+            cli: false,
+            arts: vec![
+                art("r.info", info, Intent::Info),
+                art("linked-files-map.json", b"{\"a\":\"one\"}", Intent::Map),
+                art("linked-files-map.json", b"{\"a\":\"two\"}", Intent::Map),
+            ],
+            layouts: vec![
+                simple_layout(vec![CType::ZipStored, CType::ZipStored], vec![0, 0, 1], vec![ArgRef::C(0), ArgRef::C(1)]),
+                simple_layout(vec![CType::ZipStored, CType::ZipStored], vec![0, 0, 1], vec![ArgRef::C(1), ArgRef::C(0)]),
+            ],
+        },
+    ));
+    // hidden directories / files and an .ignore file inside a directory input: a directory delivers what a zip
+    // of the same files delivers
+    v.push((
+        "hidden-dirs-and-ignore-file",
+        Case {
+            ignore_orphan: false,
+            llvm: false,
+            cli: false,
+            arts: vec![
+                art(".libs/a.gcno", b"oncg*22B hidden notes", Intent::Gcno),
+                art(".libs/a.gcda", b"adcg*22B hidden run", Intent::Gcda),
+                art(".ci/e2e.info", info, Intent::Info),
+                art("vis.info", b"TN:v\nSF:v.c\nDA:1,2\nend_of_record\n", Intent::Info),
+                art(".ignore", b"*.info\n*.gcno\n.libs/\n", Intent::Decoy),
+                art(".gitignore", b"*\n", Intent::Decoy),
+                art("sub/.hidden.info", b"SF:h.c\nDA:3,1\nend_of_record\n", Intent::Info),
+            ],
+            layouts: vec![
+                simple_layout(vec![CType::Dir], vec![0, 0, 0, 0, 0, 0, 0], vec![ArgRef::C(0)]),
+                simple_layout(vec![CType::ZipDeflate], vec![0, 0, 0, 0, 0, 0, 0], vec![ArgRef::C(0)]),
+            ],
+        },
+    ));
     // documented behaviour, no finding: the tests' layout (gcno.zip + two gcda zips), LLVM and GCC gcno
     v.push((
         "gcno-zip-plus-two-gcda-zips",
@@ -1403,17 +1482,184 @@ fn witnesses() -> Vec<(&'static str, Case)> {
     v
 }
 
+
+// ---------------------------------------------------------------------------------------------
+// classification of the command-line arguments (producer.rs 497-533) against `Producer.classifyArg`
+
+#[derive(Clone, Copy, PartialEq, Debug)]
+enum FsKind {
+    Dir,     // a directory holding `in.info`
+    ZipFile, // a zip file holding `in.info`
+    Info,    // a regular file with lcov content
+}
+
+const ARG_NAMES: &[&str] = &[
+    "x.zip", "x.ZIP", "x.Zip", "x.jar", "x.info", "x.INFO", "x.xml", "x.json", "x.profraw", "x.profdata", "x.txt",
+    "README", ".info", ".zip", "d", "d.zip", "d.info", "a.zip.bak", "x.zip.info", "x.info.zip", "linked-files-map.json",
+];
+
+/// what the argument must lead to, given the model's class and what is really there
+fn argclass_expected(class: &str, kind: FsKind, name: &str, content: &[u8], inner: &[u8]) -> String {
+    let c_item = |bytes: &[u8], who: &str| format!("ok C:info:{}:{}", fnv64(bytes), who);
+    match class {
+        "zip" => {
+            if kind == FsKind::ZipFile {
+                c_item(inner, "a0")
+            } else {
+                "panic zip".to_string()
+            }
+        }
+        "dir" => c_item(inner, "a0"),
+        "plain" => match ext_of(name) {
+            Some("info") => {
+                if content.len() >= 3 && (&content[..3] == b"TN:" || &content[..3] == b"SF:") {
+                    c_item(content, "plain")
+                } else {
+                    "panic no-input".to_string()
+                }
+            }
+            Some(e @ ("profraw" | "profdata")) => format!("ok P:{}:{}:m0:ext", e, fnv64(content)),
+            _ => "panic no-input".to_string(),
+        },
+        other => other.to_string(),
+    }
+}
+
+fn argclass_stream(rep: &mut Report) {
+    let inner: &[u8] = b"TN:inner\nSF:in.c\nDA:1,1\nend_of_record\n";
+    let plain: &[u8] = b"TN:plain\nSF:pl.c\nDA:2,1\nend_of_record\n";
+    let zip_bytes = {
+        let mut w = zip::ZipWriter::new(std::io::Cursor::new(Vec::new()));
+        w.start_file("in.info", zip::write::SimpleFileOptions::default().compression_method(zip::CompressionMethod::Stored)).unwrap();
+        w.write_all(inner).unwrap();
+        w.finish().unwrap().into_inner()
+    };
+    let cwd = std::env::current_dir().unwrap();
+    let root = rep.workdir.join("argclass");
+    let _ = std::fs::remove_dir_all(&root);
+    let mut reqs = vec![];
+    let mut obs = vec![];
+    let mut meta = vec![];
+    let mut idx = 0;
+    for name in ARG_NAMES {
+        for kind in [FsKind::Dir, FsKind::ZipFile, FsKind::Info] {
+            for variant in 0..3 {
+                // 0 absolute, 1 relative to the current directory, 2 absolute with a trailing slash (directories)
+                if variant == 2 && kind != FsKind::Dir {
+                    continue;
+                }
+                let dir = root.join(format!("k{}", idx));
+                idx += 1;
+                let p = dir.join(name);
+                let content: Vec<u8> = match kind {
+                    FsKind::Dir => {
+                        write_file(&p.join("in.info"), inner);
+                        vec![]
+                    }
+                    FsKind::ZipFile => {
+                        write_file(&p, &zip_bytes);
+                        zip_bytes.clone()
+                    }
+                    FsKind::Info => {
+                        write_file(&p, plain);
+                        plain.to_vec()
+                    }
+                };
+                let abs = p.to_str().unwrap().to_string();
+                let arg = match variant {
+                    0 => abs.clone(),
+                    1 => match p.strip_prefix(&cwd) {
+                        Ok(r) => r.to_str().unwrap().to_string(),
+                        Err(_) => abs.clone(),
+                    },
+                    _ => format!("{}/", abs),
+                };
+                let full = if variant == 2 { arg.clone() } else { abs.clone() };
+                let tmp = tempfile::tempdir_in(&dir).unwrap();
+                let tmp_path = tmp.path().to_path_buf();
+                let (sender, receiver) = unbounded();
+                let paths = vec![arg.clone()];
+                let paths2 = paths.clone();
+                let res = guarded(move || {
+                    let m = producer(&tmp_path, &paths2, &sender, false, false);
+                    drop(sender);
+                    m
+                });
+                let mut items: Vec<String> = vec![];
+                while let Ok(x) = receiver.try_recv() {
+                    if let Some(it) = x {
+                        let (o, n) = canon_item(&it, &paths);
+                        items.push(format!("{}:{}", o, n));
+                    }
+                }
+                items.sort();
+                let out = match res {
+                    Ok(_) => format!("ok {}", items.join("|")),
+                    Err(msg) => {
+                        if msg.contains("ZIP file") {
+                            "panic zip".to_string()
+                        } else if msg.contains("it isn't a directory") {
+                            "panic no-ext".to_string()
+                        } else if msg.contains("Cannot load file") {
+                            "panic bad-ext".to_string()
+                        } else if msg.contains("No input files found") {
+                            "panic no-input".to_string()
+                        } else {
+                            format!("panic other {}", msg)
+                        }
+                    }
+                };
+                reqs.push(format!(
+                    "c17.argclass x{} x{} {}",
+                    hex(arg.as_bytes()),
+                    hex(full.as_bytes()),
+                    if kind == FsKind::Dir { 1 } else { 0 }
+                ));
+                obs.push(out);
+                meta.push((name.to_string(), kind, variant, content));
+            }
+        }
+    }
+    let answers = run_model_named("gm_c17", &reqs, &rep.workdir, "argclass");
+    for k in 0..reqs.len() {
+        let (name, kind, variant, content) = &meta[k];
+        let want = argclass_expected(&answers[k], *kind, name, content, inner);
+        rep.case(&format!("argclass {} {:?} {}", name, kind, variant), true);
+        rep.count(&format!("argclass.model.{}", answers[k].replace(' ', "-")));
+        rep.count(&format!("argclass.impl.{}", obs[k].split(' ').take(2).collect::<Vec<_>>().join("-").split(':').next().unwrap()));
+        if k == 3 {
+            rep.sample(json!({"request": reqs[k], "model": answers[k], "impl": obs[k]}));
+        }
+        if want != obs[k] {
+            rep.disagreements_checked += 1;
+            rep.fail(
+                "disagreement",
+                None,
+                format!(
+                    "argument {:?} ({:?}, variant {}): producer() gives [{}], Producer.classifyArg says {} which means [{}] (C17_arg_classification no longer transfers)",
+                    name, kind, variant, obs[k], answers[k], want
+                ),
+                json!({"op": "argclass", "name": name, "kind": format!("{:?}", kind), "variant": variant}),
+            );
+        }
+    }
+    let _ = std::fs::remove_dir_all(&root);
+}
+
 // ---------------------------------------------------------------------------------------------
 
 pub fn run(rep: &mut Report) {
     rep.rule = "an artifact multiset (0-4 gcno stems x 0-3 gcda runs each, LLVM-stamped and GCC gcno incl. real ones from \
                 /repo/test, duplicate identical gcno, gcda without gcno, .info valid/decoy, JaCoCo .xml incl. marker ending at \
                 byte 256 / exactly 256 bytes / shorter than 256 bytes / non-UTF-8 prefix and decoys (no marker, marker after or across byte 256, empty), \
-                profraw/profdata, linked-files-map.json x0-2, files with other or no extension, dotfiles) laid out twice: one \
+                profraw/profdata, linked-files-map.json x0-2 (two DIFFERENT ones only in the findings stream), files with other or no extension, dotfiles, \
+                artifacts inside hidden directories (.libs/, .ci/, sub/.hidden/) and hidden files with coverage extensions, .ignore/.gitignore files whose \
+                patterns name artifacts) laid out twice: one \
                 dir | one zip | split over 1-4+ dirs and stored/deflated zips (nested subdirs, optional zip directory entries) | \
                 plain-file arguments where admissible, shuffled argument order, relative or absolute arguments, \
                 ignore_orphan_gcno and is_llvm random; plus a small stream with the one named finding's artifacts (different gcno, same name) and one with \
-                inadmissible plain arguments; non-trivial = at least one usable artifact and two different layouts; \
+                inadmissible plain arguments; argclass: 21 argument names (x.zip, x.ZIP, x.jar, x.info, README, .info, d.zip, …) x {directory, zip file, \
+                lcov file} x {absolute, relative, trailing slash} through producer() against Producer.classifyArg; non-trivial = at least one usable artifact and two different layouts; \
                 distinct = distinct (options, both abstract layouts)"
         .to_string();
     let pools = load_pools();
@@ -1435,8 +1681,19 @@ pub fn run(rep: &mut Report) {
     let main_cfg = GenCfg { findings: false, bad_args: false };
     for _ in 0..n {
         let case = gen_case(&mut rng, &pools, &main_cfg, rep);
-        for a in &case.arts {
+        for (j, a) in case.arts.iter().enumerate() {
             rep.count(&format!("artifact.{}", intent_name(a.intent)));
+            let hidden = a.rel.split('/').any(|c| c.starts_with('.'));
+            let ignore_file = matches!(a.rel.rsplit('/').next().unwrap(), ".ignore" | ".gitignore" | ".grcovignore");
+            for l in &case.layouts {
+                let in_dir = l.assign[j] >= 0 && l.containers[l.assign[j] as usize] == CType::Dir;
+                if hidden && !ignore_file && a.intent != Intent::Decoy {
+                    rep.count(if in_dir { "hidden.artifact_in_dir_input" } else { "hidden.artifact_in_zip_or_plain" });
+                }
+                if ignore_file {
+                    rep.count(if in_dir { "ignorefile.in_dir_input" } else { "ignorefile.in_zip" });
+                }
+            }
         }
         for l in &case.layouts {
             rep.count(&format!("layout.containers.{}", l.containers.len().min(5)));
@@ -1473,9 +1730,14 @@ pub fn run(rep: &mut Report) {
         idx += 1;
     }
     tie(rep, &pend, "c17");
+    argclass_stream(rep);
 }
 
 pub fn replay(rep: &mut Report, case: &Value) {
+    if case["op"].as_str() == Some("argclass") {
+        argclass_stream(rep);
+        return;
+    }
     let c = case_from_json(case);
     let mut pend = vec![];
     process(rep, &mut pend, c, 0, "replay");
